@@ -20,6 +20,7 @@ COMPONENTS = {
     'control points (homogeneous)': {'_control_points', 'ctrlptsw'},
 }
 DECIDES += (' EQ2: __eq__ / __ne__ interpreted on 242 ordered pairs of abstract shapes that differ in exactly one component (kind, rationality, a degree, sizes, a knot, a knot count, a coordinate incl. the weight slot, the point count of a curve, a shape of the next parametric kind agreeing in all shared directions) or in none, and on non-shapes: equal exactly when nothing differs by more than the tolerance, symmetric, != the negation.')
+DECIDES += (' SC2: the control points compared are the ones given (no rounding on the way in, whatever the precision).')
 
 
 def comp_of_attr(attr):
